@@ -19,7 +19,10 @@
    HealthService::check / watch                       [step _ (Check n)] / [step _ (Watch n)]
 
    Every operation of the real service runs under the RwLock, so a history is a list of
-   operations.  No proofs in this file. *)
+   operations ([step], [run], [trace]).  The second part of the file ("concurrent executions")
+   is the machine that splits a call into lock acquisition / lookup / effect / return steps
+   ([cstep], [cexec]) and the linearizability search the harness evaluates on recorded concurrent
+   histories ([lin_check], [obs_conc]).  No proofs in this file. *)
 From Coq Require Import List NArith Bool Arith.
 From Verif Require Import Lib.Obs.
 Import ListNotations.
@@ -204,19 +207,196 @@ Definition out_tr (o : out) : tr :=
   end.
 Definition obs_history (h : list op) : tr := Nd (map (fun x => out_tr (snd x)) (trace init h)).
 
-(* ---- linearizability observable (interleaving tier of the harness) ----
-   A candidate (pre, a, post) is the sequential history pre ++ a :: post; its observable lists
-   the outputs of pre and post (the main task, in program order) and then the output of a (the
-   concurrent operation).  Stream numbers are not part of it: they depend on the order. *)
-Definition lin_out_tr (o : out) : tr :=
-  match o with OWatch _ => Nd [Nn 4] | _ => out_tr o end.
-Definition lin_obs (c : list op * op * list op) : tr :=
-  let '(pre, a, post) := c in
-  let s1 := run init pre in
-  let ra := step s1 a in
-  Nd (map (fun x => lin_out_tr (snd x)) (trace init pre)
-      ++ map (fun x => lin_out_tr (snd x)) (trace (fst ra) post)
-      ++ [lin_out_tr (snd ra)]).
-(* 1 iff what the implementation showed equals the model's outcome for one of the candidates *)
-Definition obs_linearizable (cands : list (list op * op * list op)) (impl : tr) : tr :=
-  Nn (if existsb (fun c => tr_eqb (lin_obs c) impl) cands then 1 else 0).
+(* ================================================================== concurrent executions
+   The sequential model above treats an operation as one step.  The machine below splits every
+   operation of the real service into the steps between which another task can run, with the
+   tokio RwLock as the only synchronisation, exactly as in server.rs:
+
+     set_service_status / clear_service_status      check (service_health) / watch
+     -------------------------------------------    ------------------------------------------
+     EInv   the call starts                          EInv
+     EAcq   self.statuses.write().await  returns     EAcq  self.statuses.read().await returns
+            (enabled iff nobody holds a guard)             (enabled iff no WRITE guard is held)
+     ELook  writer.get(name) / the lookup of remove  ELook reader.get(name)
+     EAct   tx.send / insert / remove (drops the     EAct  *p.1.borrow() / rx.clone(); the guard
+            Sender); the guard is dropped                  is dropped (for watch it lives to the
+                                                           end of the match)
+     ERet   the call returns                         ERet
+     one poll of a response stream takes no lock:  EInv, EPoll (the poll, atomic on the stream's
+     watch channel), ERet.
+
+   Any number of tasks ([nat]), any interleaving of their steps ([list event]).  [g_clock] counts
+   the steps (real time); [g_hist] records every completed call with the time of its invocation
+   and of its return - that record is all the harness can see of a concurrent run.
+   In a concurrent history stream numbers cannot be used (they depend on the order in which the
+   Watch calls take effect): [Next k] there means "the stream opened by the Watch call that was
+   invoked at time k"; [g_slots] / [slot_lookup] translate.  No proofs in this file. *)
+Definition op_name (o : op) : name :=
+  match o with SetBy n _ | Clear n | Check n | Watch n => n | Next _ => [] end.
+Definition is_locked (o : op) : bool := match o with Next _ => false | _ => true end.
+Definition is_write (o : op) : bool := match o with SetBy _ _ | Clear _ => true | _ => false end.
+
+(* what an operation does under its guard once the map lookup has answered [r]
+   (same branches as [step], with the lookup taken out) *)
+Definition locked_act (s : state) (o : op) (r : option nat) : state * out :=
+  match o with
+  | SetBy n v =>
+      match r with
+      | Some id =>
+          if Nat.eqb (c_rx (get_chan s id)) 0 then (s, OPanic)
+          else (mkSt (upd_nth id (chan_send v) (chans s)) (svcs s) (watchers s), OUnit)
+      | None =>
+          (mkSt (chans s ++ [new_chan v]) ((n, length (chans s)) :: svcs s) (watchers s), OUnit)
+      end
+  | Clear n =>
+      match r with
+      | Some id => (mkSt (upd_nth id chan_close (chans s)) (remove n (svcs s)) (watchers s), OUnit)
+      | None => (s, OUnit)
+      end
+  | Check n =>
+      match r with
+      | Some id => (s, OStatus (c_val (get_chan s id)))
+      | None => (s, ONotFound)
+      end
+  | Watch n =>
+      match r with
+      | Some id =>
+          (mkSt (upd_nth id chan_add_rx (chans s)) (svcs s) (watchers s ++ [mkW id 0 true false]),
+           OWatch (length (watchers s)))
+      | None => (s, ONotFound)
+      end
+  | Next w => step s (Next w)
+  end.
+
+Definition slots : Type := list (nat * nat).     (* invocation time of a Watch -> stream number *)
+Fixpoint slot_lookup (k : nat) (m : slots) : option nat :=
+  match m with
+  | [] => None
+  | (a, w) :: m' => if Nat.eqb k a then Some w else slot_lookup k m'
+  end.
+Definition bind_slot (i : nat) (x : out) (sm : slots) : slots :=
+  match x with OWatch w => (i, w) :: sm | _ => sm end.
+
+(* the sequential meaning of one operation (invoked at time [i]) of a concurrent history *)
+Definition apply_cop (s : state) (sm : slots) (i : nat) (o : op) : state * slots * out :=
+  match o with
+  | Next k =>
+      match slot_lookup k sm with
+      | Some w => (fst (step s (Next w)), sm, snd (step s (Next w)))
+      | None => (s, sm, ONoWatcher)
+      end
+  | _ => (fst (step s o), bind_slot i (snd (step s o)) sm, snd (step s o))
+  end.
+
+(* one completed call: invoked at [co_inv], returned [co_out] at [co_ret] *)
+Record cop : Type := mkCop { co_inv : nat; co_ret : nat; co_op : op; co_out : out }.
+
+Inductive phase : Type :=
+| PIdle
+| PWait (i : nat) (o : op)                      (* invoked at i; waiting for the lock / about to poll *)
+| PHeld (i : nat) (o : op)                      (* holds its guard *)
+| PLooked (i : nat) (o : op) (r : option nat)   (* holds its guard, the map lookup answered r *)
+| PDone (i : nat) (o : op) (x : out).           (* has taken effect, guard dropped, not yet returned *)
+(* the guard a task holds: Some true = RwLockWriteGuard, Some false = RwLockReadGuard *)
+Definition holds (p : phase) : option bool :=
+  match p with PHeld _ o | PLooked _ o _ => Some (is_write o) | _ => None end.
+
+Record cfg : Type := mkCfg {
+  g_st : state; g_slots : slots; g_th : nat -> phase; g_clock : nat; g_hist : list cop }.
+Definition set_th (th : nat -> phase) (t : nat) (p : phase) : nat -> phase :=
+  fun t' => if Nat.eqb t' t then p else th t'.
+Definition cinit : cfg := mkCfg init [] (fun _ => PIdle) 0 [].
+
+Inductive event : Type :=
+| EInv (t : nat) (o : op) | EAcq (t : nat) | ELook (t : nat) | EAct (t : nat) | EPoll (t : nat) | ERet (t : nat).
+
+(* tokio RwLock: a write guard excludes every other guard, read guards are shared *)
+Definition may_acquire (th : nat -> phase) (o : op) : Prop :=
+  forall t', match holds (th t') with
+             | None => True
+             | Some w => w = false /\ is_write o = false
+             end.
+
+Inductive cstep : cfg -> event -> cfg -> Prop :=
+| cs_inv : forall c t o, g_th c t = PIdle ->
+    cstep c (EInv t o)
+      (mkCfg (g_st c) (g_slots c) (set_th (g_th c) t (PWait (g_clock c) o)) (S (g_clock c)) (g_hist c))
+| cs_acq : forall c t i o, g_th c t = PWait i o -> is_locked o = true -> may_acquire (g_th c) o ->
+    cstep c (EAcq t)
+      (mkCfg (g_st c) (g_slots c) (set_th (g_th c) t (PHeld i o)) (S (g_clock c)) (g_hist c))
+| cs_look : forall c t i o, g_th c t = PHeld i o ->
+    cstep c (ELook t)
+      (mkCfg (g_st c) (g_slots c)
+             (set_th (g_th c) t (PLooked i o (lookup (op_name o) (svcs (g_st c)))))
+             (S (g_clock c)) (g_hist c))
+| cs_act : forall c t i o r, g_th c t = PLooked i o r ->
+    cstep c (EAct t)
+      (mkCfg (fst (locked_act (g_st c) o r)) (bind_slot i (snd (locked_act (g_st c) o r)) (g_slots c))
+             (set_th (g_th c) t (PDone i o (snd (locked_act (g_st c) o r))))
+             (S (g_clock c)) (g_hist c))
+| cs_poll : forall c t i k, g_th c t = PWait i (Next k) ->
+    cstep c (EPoll t)
+      (mkCfg (fst (fst (apply_cop (g_st c) (g_slots c) i (Next k)))) (g_slots c)
+             (set_th (g_th c) t (PDone i (Next k) (snd (apply_cop (g_st c) (g_slots c) i (Next k)))))
+             (S (g_clock c)) (g_hist c))
+| cs_ret : forall c t i o x, g_th c t = PDone i o x ->
+    cstep c (ERet t)
+      (mkCfg (g_st c) (g_slots c) (set_th (g_th c) t PIdle) (S (g_clock c))
+             (g_hist c ++ [mkCop i (g_clock c) o x])).
+
+(* an execution: any schedule of steps of any tasks *)
+Inductive cexec : cfg -> list event -> cfg -> Prop :=
+| ce_nil : forall c, cexec c [] c
+| ce_snoc : forall c e c1 ev c2, cexec c e c1 -> cstep c1 ev c2 -> cexec c (e ++ [ev]) c2.
+
+(* ---- the linearizability check the harness evaluates on a recorded concurrent history ----
+   Search for an order of the calls that (a) respects real time - a call that returned before
+   another one was invoked comes first - and (b) in which every call returns what the
+   sequential model returns.  Stream numbers are not compared ([out_abs]). *)
+Definition out_abs (x : out) : out := match x with OWatch _ => OWatch 0 | _ => x end.
+Definition status_eqb (a b : status) : bool := N.eqb (status_wire a) (status_wire b).
+Definition out_eqb (a b : out) : bool :=
+  match a, b with
+  | OUnit, OUnit | OPanic, OPanic | ONotFound, ONotFound | OEnd, OEnd | OPending, OPending
+  | ONoWatcher, ONoWatcher | OFuel, OFuel => true
+  | OStatus v, OStatus u | OItem v, OItem u => status_eqb v u
+  | OWatch v, OWatch u => Nat.eqb v u
+  | _, _ => false
+  end.
+Definition minimal (c : cop) (rem : list cop) : bool :=
+  forallb (fun c' => negb (Nat.ltb (co_ret c') (co_inv c))) rem.
+Fixpoint remove_nth {A} (i : nat) (l : list A) : list A :=
+  match l, i with
+  | [], _ => []
+  | _ :: l', O => l'
+  | x :: l', S k => x :: remove_nth k l'
+  end.
+(* [vm_compute] is call-by-value: [&&], [||] and [existsb] would evaluate every branch of the
+   search; [if] and [first_true] stop at the first order that fits *)
+Fixpoint first_true (f : nat -> bool) (l : list nat) : bool :=
+  match l with
+  | [] => false
+  | i :: l' => if f i then true else first_true f l'
+  end.
+Fixpoint lin_search (fuel : nat) (s : state) (sm : slots) (rem : list cop) : bool :=
+  match rem with
+  | [] => true
+  | _ :: _ =>
+      match fuel with
+      | O => false
+      | S f =>
+          first_true (fun i =>
+            match nth_error rem i with
+            | None => false
+            | Some c =>
+                if minimal c rem then
+                  let r := apply_cop s sm (co_inv c) (co_op c) in
+                  if out_eqb (out_abs (snd r)) (out_abs (co_out c))
+                  then lin_search f (fst (fst r)) (snd (fst r)) (remove_nth i rem)
+                  else false
+                else false
+            end) (seq 0 (length rem))
+      end
+  end.
+Definition lin_check (h : list cop) : bool := lin_search (length h) init [] h.
+Definition obs_conc (h : list cop) : tr := Nn (if lin_check h then 1 else 0).
